@@ -387,6 +387,8 @@ class Interp:
                     cur = ("slicewhole", a)
                 elif d[0] == "static":
                     cur = ("static", d[1])
+                elif d[0] == "staticelem":
+                    cur = ("staticelem", d[1], None)        # some element of an immutable static table
                 else:
                     cur = ("unknown", raw)
             elif "f" in e:
@@ -472,6 +474,8 @@ class Interp:
             h = region[3]
             if h is not None and ty is not None and trange(ty) is not None:
                 return new_int(h[0], h[1])
+        if region[0] == "static":
+            return self.static_elem(region[1], ty)
         return fresh_of_type(ty) if ty else None
 
     def static_elem(self, path, ty):
@@ -525,7 +529,7 @@ class Interp:
         """static capacity of a region: an int, or for the buffer of a heap vector the lower bound of its capacity atom"""
         if region[0] == "loc":
             return region[2]
-        if region[0] == "const":
+        if region[0] in ("const", "static"):
             return region[2]
         if region[0] == "heap":
             c = st.env.get(tuple(region[1]) + (("g", "vcap"),))
@@ -1155,6 +1159,8 @@ class Interp:
                     return new_ptr(("slice", ("loc", d[1], n, "arr"), const_int(0), const_int(n)))
                 if d and d[0] == "loc_const_array":
                     return new_ptr(("slice", d[1], const_int(0), const_int(n)))
+                if d and d[0] == "static":
+                    return new_ptr(("slice", ("static", d[1], n), const_int(0), const_int(n)))
                 return new_ptr(("slice", ("ext", "anon-array", None), const_int(0), const_int(n)))
             return a if a is not None else new_top()
         if kind.startswith("Transmute"):
